@@ -1060,6 +1060,14 @@ func (p *RPCCompiler) processRepeatedField(message protoref.Message, fd protoref
 			}
 
 			list.Append(protoref.ValueOfMessage(fieldMsg))
+		case DataTypeEnum:
+			// setValueForKind has no enum case: appending its zero Value panics
+			val, err := p.getEnumValue(rpcField.EnumName, element)
+			if err != nil {
+				return err
+			}
+
+			list.Append(val)
 		default:
 			list.Append(p.setValueForKind(field.Type, element))
 		}
